@@ -43,6 +43,17 @@ def job(j):
             genrun.add_viol(state["viol"], ({"kind": "exec-mismatch", "config": cfg, "rule_tags": tags, "first": mm[0][:160]},
                                   {"case": rec, "query": doc.text, "engine_cfg": ecfg, "mismatches": mm, "response": resp}))
 
+    if j.get("simulate"):
+        # large documents (up to 12 selection nodes, full alphabet) drawn by TLC in simulation mode
+        inner = on_line
+
+        def on_line_capped(rec):
+            if state["n"] >= j["max_cases"]:
+                raise StopIteration
+            inner(rec)
+        res = tlc.run("MC_exec.tla", cfg, on_line=on_line_capped, workers=1, simulate=j["simulate"], depth=40, seed=j["seed"], timeout=1500)
+        return {"job": j, "tlc": [genrun.tlc_summary("%s(simulate seed=%d)" % (cfg, j["seed"]), res, exhaustive=False)], "evaluations": state["n"],
+                "distinct": list(state["distinct"]), "samples": state["samples"], "violations": state["viol"], "extra": {"large_documents_replayed": state["n"]}}
     res = tlc.run("MC_exec.tla", cfg, on_line=on_line, workers=j.get("workers", 1), timeout=j.get("timeout", 3000))
     return {"job": j, "tlc": [genrun.tlc_summary(cfg, res)], "evaluations": state["n"],
             "distinct": list(state["distinct"]), "samples": state["samples"], "violations": state["viol"]}
@@ -57,7 +68,10 @@ def main(argv):
                        "documents restricted to the mergeable-fields fragment described in GenDoc.tla"]
     cfgs = THOROUGH if common.tier() == "thorough" else QUICK
     cfgs = [c for c in cfgs if os.path.exists(os.path.join(tlc.SPEC_DIR, c))]
-    results = genrun.run_jobs("checks.c01", "job", [{"cfg": c} for c in cfgs])
+    thorough = common.tier() == "thorough"
+    sims = [{"cfg": c, "simulate": 2000 if thorough else 500, "seed": common.seed() * 100 + 7 + k, "max_cases": 2000 if thorough else 300}
+            for k, c in enumerate(["MC_exec_sim3.cfg", "MC_exec_sim.cfg"] * (3 if thorough else 1))]
+    results = genrun.run_jobs("checks.c01", "job", [{"cfg": c} for c in cfgs] + sims)
     bad = genrun.merge(rep, results)
     rc = rep.finish()
     if bad:
